@@ -146,6 +146,11 @@ BOUNDARY_LINES = [
     "X = 1 : FOR X = \"a\" TO 2", "READ X$", "INPUT X$", "X$ = X$ + 1", "FOR I$ = 1 TO 2",
     "FOR", "FOR I", "FOR I=1", "FOR I=1 TO", "NEXT", "GOTO", "GOSUB", "DEF", "DEF F", "DEF F(", "DEF F(X", "DEF F(X)",
     "READ", "INPUT", "PRINT ,;,;", "PRINT 1,2;3", "X = ", "X(1", "X(1)", "X(1) =", "= 1", "1 = 1", "PRINT A$(1)", "A$(1) = 1",
+    # errors located BEHIND multi-byte text: byte offsets and character counts differ where the caret is rendered
+    "PRINT \"\u00e9\u00e9\";\"", "10 PRINT \"\u3053\u3093\u306b\u3061\u306f\";\"", "PRINT \"\u20ac\u20ac\u20ac\" : X = \"",
+    "?\"\u65e5\u672c\u8a9e\":?\"", "PRINT \"\u00e9\u00e9\u00e9\u00e9\u00e9\" \u00e9", "PRINT \"\u00e9\u00e9\u00e9\" +", "PRINT \"\u65e5\u672c\" = 1",
+    "X$ = \"\u00e9\" : GOTO", "PRINT \"\U0001f600\U0001f600\";\"", "20 A$ = \"\u00fc\u00fc\u00fc\u00fc\" : B$ = \"open", "PRINT \"\u00e9\" \u20ac",
+    "DATA \u00e9\u00e9, \"x", "PRINT \"\u00e9\u00e9\u00e9\u00e9\" : PRINT 1.2.3", "IF \"\u00e9\u00e9\" THEN PRINT \"",
 ]
 SEEDS = [0, 1, 2**33 - 1, 2**33, 2**33 + 1, 2**43, 2**44, 2**63, 2**64 - 1, 12345678901234567]
 
@@ -223,6 +228,22 @@ def run_c01(chk):
         sessions.append(s.ops)
         chk.case(tuple(str(o) for o, _ in s.ops), nontrivial=len(s.ops) > 5,
                  sample={"ops": [str(o)[:80] for o, _ in s.ops[:10]]})
+    # the boundary corpus, every line once (histories above pick from it at random)
+    s = sess.Session(h)
+    for text in BOUNDARY_LINES:
+        if s.dead or not h.alive():
+            if not h.alive():
+                h.restart()
+            s = sess.Session(h)
+        if s.state != "Idle":
+            for rw in s.run_until_idle(max_turns=30):
+                each(s, rw)
+            if s.state != "Idle":
+                s = sess.Session(h)
+        each(s, s.line(text))
+        chk.count("boundary-line")
+    sessions.append(s.ops)
+    chk.case(("boundary-sweep",), sample={"boundary_lines": len(BOUNDARY_LINES)})
     # deep-nesting probes: every shape x depths around the cap and far beyond, in a fresh process each
     shapes = [lambda d: "PRINT " + "(" * d + "1" + ")" * d, lambda d: "IF 1 THEN " * d + "PRINT 1",
               lambda d: "X = " + "ABS(" * d + "1" + ")" * d, lambda d: "A(" * d + "1" + ")" * d + " = 1",
